@@ -23,6 +23,9 @@ func verifSimReseed(s uint64)
 //go:linkname verifSimOn runtime.verifSimOn
 func verifSimOn() bool
 
+//go:linkname verifSimDrawCount runtime.verifSimDrawCount
+func verifSimDrawCount() uint64
+
 //go:linkname verifSchedDump runtime.verifSchedDump
 func verifSchedDump(base uint64) (n uint64, h uint64)
 
@@ -45,8 +48,9 @@ type Harness struct {
 	tier string
 }
 
-// Init must be called from TestMain of every simulation binary before anything else.
-func Init() {
+// Heap-profile sampling draws from the runtime PRNG at allocation-dependent moments; it was the
+// last source of divergence between processes (DESIGN.md 3.2). Off for every simulation binary.
+func init() {
 	runtime.MemProfileRate = 0
 }
 
@@ -58,6 +62,7 @@ type detSample struct {
 	FP      string `json:"fp"`
 	SimNs   int64  `json:"sim_ns"`
 	Yields  uint64 `json:"yields"`
+	Draws   uint64 `json:"draws"`
 }
 
 // Replay is the replay-file format (also used for reporting violations to the parent).
@@ -172,7 +177,13 @@ func Main(t *testing.T, hs ...*Harness) {
 			fmt.Fprintf(prog, "%d %d\n", i, seed)
 		}
 		sc := h.Gen(NewRand(seed, StreamGen), tier)
-		x := h.runOne(t, seed, sc, nil, false)
+		traceAll := os.Getenv("HYSIM_TRACEALL") != ""
+		x := h.runOne(t, seed, sc, nil, traceAll)
+		if traceAll && outPath != "" {
+			f, _ := os.OpenFile(outPath+".trace", os.O_CREATE|os.O_WRONLY|os.O_APPEND, 0o644)
+			fmt.Fprintf(f, "=== run %d seed %d\n%s\n", i, seed, strings.Join(x.Events, "\n"))
+			f.Close()
+		}
 		out.Runs++
 		out.SimNs += int64(x.simNs)
 		out.Yields += x.yieldIdx
@@ -200,7 +211,7 @@ func Main(t *testing.T, hs ...*Harness) {
 			}
 		}
 		if len(out.Det) < detN {
-			out.Det = append(out.Det, detSample{Seed: seed, EvHash: fmt.Sprintf("%016x", x.evHash), SchedN: x.schedN, SchedH: fmt.Sprintf("%016x", x.schedH), FP: fmt.Sprintf("%016x", x.fp), SimNs: int64(x.simNs), Yields: x.yieldIdx})
+			out.Det = append(out.Det, detSample{Seed: seed, EvHash: fmt.Sprintf("%016x", x.evHash), SchedN: x.schedN, SchedH: fmt.Sprintf("%016x", x.schedH), FP: fmt.Sprintf("%016x", x.fp), SimNs: int64(x.simNs), Yields: x.yieldIdx, Draws: x.draws})
 		}
 		if x.Viol != nil && x.Inconc == "" {
 			cls := x.Viol.Class
@@ -236,6 +247,7 @@ type runMeta struct {
 	simNs  time.Duration
 	schedN uint64
 	schedH uint64
+	draws  uint64
 }
 
 func (h *Harness) runOne(t *testing.T, seed uint64, sc *Script, yl []YieldDecision, trace bool) *runX {
@@ -289,6 +301,7 @@ func (h *Harness) runOne(t *testing.T, seed uint64, sc *Script, yl []YieldDecisi
 	}
 	if verifSimOn() {
 		rx.schedN, rx.schedH = verifSchedDump(0)
+		rx.draws = verifSimDrawCount()
 	}
 	if h.Post != nil && x.Viol == nil {
 		x.Recover("harness Post", func() { h.Post(x) })
